@@ -482,7 +482,7 @@ def check_sticky_flags(prog, rep):
 
 def check_errflow_c09(prog, rep):
     m = prog.module(MPS)
-    prod = {'swap_sites': None, 'svd_theta': 3, 'compress_svd': None, 'compress': None,
+    prod = {'swap_sites': None, 'svd_theta': 3, 'compress_svd': None, 'compress': None, 'set_svd_theta': None,
             'group_split': None, 'apply_naively': None, 'run': None}
     for qn in ('MPS.swap_sites', 'MPS.permute_sites', 'MPS.compress_svd', 'MPS.group_split'):
         if m.has_func(qn):
